@@ -1,4 +1,5 @@
 import McpModel.Conn.CallInv
+import McpModel.Conn.ReqInv
 /-!
 # Property theorems for E1 — the jsonrpc2 connection (C01–C05)
 
@@ -132,5 +133,63 @@ theorem refused_when_shutting_down (ls : List Label) (s s' : St) (hr : run {} ls
     · simp [settleCall, Err.closing, hctx]
     · simp [settleCall, Err.closing, hctx, hreg]
     · rw [hoc, hf.1]; simp [modCall]
+
+/-! ## C02 — every incoming call is answered exactly once (connection level) -/
+
+/-- **answer_at_most_once.** In every reachable state every incoming request has had at most one
+response write attempted and at most one response delivered to the transport; a call that has left
+processResult (parked before P2, or finished) had exactly one attempted. -/
+theorem answer_at_most_once (ls : List Label) (s : St) (h : run {} ls = some s) :
+    ∀ (r : Nat) (k : ReqCore), s.cores[r]? = some k →
+      k.wrote ≤ 1 ∧ k.responses ≤ k.wrote ∧ (k.isCall = true → (k.pc = .p2 ∨ k.pc = .fin) → k.wrote = 1) := by
+  have i := rinv_run ls rinv_init h
+  intro r k hk
+  exact (i.ok r k hk).post
+
+/-- **notification_unanswered.** A request without an id (a notification, or — see the known finding
+F3 — a call whose id was already in flight and was therefore stripped of it at A1) never enters the
+response path: no response is ever attempted for it. -/
+theorem notification_unanswered (ls : List Label) (s : St) (h : run {} ls = some s) :
+    ∀ (r : Nat) (k : ReqCore), s.cores[r]? = some k → k.isCall = false → k.wrote = 0 ∧ k.responses = 0 := by
+  have i := rinv_run ls rinv_init h
+  intro r k hk hc
+  have o := i.ok r k hk
+  have := o.post.2.1
+  exact ⟨(o.notif hc).1, by have := (o.notif hc).1; omega⟩
+
+/-- **incoming_exact.** `incoming` counts exactly the requests that were accepted (A1 done) and whose
+processResult has not finished (P2 not done); in particular it never underflows: the
+"processResult called when incoming count is already zero" panic is unreachable. -/
+theorem incoming_exact (ls : List Label) (s : St) (h : run {} ls = some s) :
+    s.panicIncoming = false ∧ s.incoming = countInflight s.cores := by
+  have i := rinv_run ls rinv_init h
+  exact ⟨i.nopanic, i.cnt⟩
+
+/-- **indexed_iff_unanswered.** `incomingByID` maps a wire id to request `r` exactly while `r` is a call
+with that id that has not reached the point (P1) where its response is produced; ids in the index are
+unique, so `Cancel(id)` can only ever find the one unanswered request bearing that id. -/
+theorem indexed_iff_unanswered (ls : List Label) (s : St) (h : run {} ls = some s) :
+    (s.byID.map (·.1)).Nodup ∧
+    ∀ (r : Nat) (k : ReqCore), s.cores[r]? = some k → ∀ id, ((id, r) ∈ s.byID ↔ (k.isCall = true ∧ k.id = some id ∧ k.pc.indexed = true)) := by
+  have i := rinv_run ls rinv_init h
+  exact ⟨i.keys, fun r k hk id => (i.ok r k hk).idx id⟩
+
+/-- **usable_write_reaches_transport.** While the connection is usable (not closing, reader and writer
+healthy) the response of a request parked at the write gate is handed to the transport. -/
+theorem usable_write_reaches_transport (s s' : St) (r : Nat) (k : ReqCore) (hk : s.cores[r]? = some k)
+    (hpc : k.pc = .w1) (husable : s.shuttingDown = false) (h : step s (.w1 (.resp r)) = some s') :
+    ∃ k', s'.cores[r]? = some k' ∧ k'.pc = .wr := by
+  simp only [step, Option.map_eq_some_iff] at h
+  obtain ⟨s0, h0, rfl⟩ := h
+  simp only [step0, hk] at h0
+  have hg : gateOpen (modCore s r fun q => { q with wrote := q.wrote + 1 }) false = true := by
+    simp [gateOpen, St.shuttingDown, modCore] at husable ⊢; simp [St.shuttingDown, husable]
+  simp [hpc, hg] at h0
+  subst h0
+  have hc := congrArg ReqView.cores (reqView_settle
+    (tail (modCore (modCore s r fun q => { q with wrote := q.wrote + 1 }) r fun q => { q with pc := .wr })))
+  simp only [reqView, tail_cores] at hc
+  refine ⟨{ k with wrote := k.wrote + 1, pc := .wr }, ?_, rfl⟩
+  rw [hc]; simp [modCore, List.getElem?_modify, hk]
 
 end Conn
